@@ -142,7 +142,7 @@ impl Prop for Compose {
         900
     }
     fn cases(&self, tier: Tier) -> u64 {
-        tier.pick(24_000, 600_000)
+        tier.pick(24_000, 1_500_000)
     }
     fn generate(&self, g: &mut Gen) -> Case {
         let nz = g.range(1, 5);
